@@ -65,6 +65,13 @@ class PipeOps(FullOps):
             self.loop_orders.pop()
         return super().loop_exit(env, lid, info, st)
 
+    def comp_enter(self, info):
+        self.loop_orders.append(info.get("order"))
+
+    def comp_exit(self, info):
+        if self.loop_orders:
+            self.loop_orders.pop()
+
     def current_loop_order(self, env):
         for o in reversed(self.loop_orders):
             if o is not None:
@@ -249,7 +256,8 @@ class PipeOps(FullOps):
                 self.pev("unpack", node, axis=pos, layout=repr(lay[0][1]) if lay else None, layout_how=lay[0][2] if lay else None,
                          loop_order=repr(self.current_loop_order(env)), lo=repr(lo), hi=repr(hi), lo_poly=self.poly_of(lo), hi_poly=self.poly_of(hi),
                          step=repr(step), in_loop=bool(self.loop_orders), tensor_origin=sorted(t.origin),
-                         lo_origin=sorted(lo.origin) if isinstance(lo, TV) else None, hi_origin=sorted(hi.origin) if isinstance(hi, TV) else None)
+                         lo_origin=sorted(lo.origin) if isinstance(lo, TV) else None, hi_origin=sorted(hi.origin) if isinstance(hi, TV) else None,
+                         lo_note=lo.note if isinstance(lo, TV) else None, hi_note=hi.note if isinstance(hi, TV) else None)
                 out = out.but(layout=tuple(l for l in out.layout if l[0] != pos), alias=True)
             else:
                 self.pev("index", node, axis=pos, idx=repr(part[1]))
